@@ -225,6 +225,15 @@ class C24(Check):
                 "value": spec("plain-arg"), "form": st.sampled_from(["eq", "sep", "h"])})),
             "rpath": st.one_of(st.none(), st.fixed_dictionaries({
                 "value": spec("plain-arg"), "form": st.sampled_from(["eq", "sep"])})),
+            # --sysroot with a libc.so-style text script inside it that names its archive by an absolute
+            # (sysroot-relative) path; the -L directory is spelled directly, with a `..` that stays inside the
+            # sysroot, or the way compiler drivers spell it (leaving and re-entering the sysroot lexically)
+            "sysroot": st.one_of(st.none(), st.none(), st.fixed_dictionaries({
+                "via": st.sampled_from(["direct", "inner-dotdot", "outer-dotdot"]),
+                "entry": st.sampled_from(["abs", "abs", "name"]),
+                "kw": st.sampled_from(["INPUT", "GROUP"]),
+                "sysroot_form": st.sampled_from(["eq", "sep"]),
+            })),
             "savedir": spec("save-dir"),
             "out_form": st.sampled_from(out_forms),
             "aux": st.sampled_from(aux),
@@ -319,6 +328,22 @@ class C24(Check):
             calls.append("pl")
             sp = styled(ln)
             extra_args += (["-L" + sp] if case["libdir"]["form"] == "-Ldir" else ["-L", sp]) + ["-lvzq"]
+        if case.get("sysroot"):
+            sr = case["sysroot"]
+            srlib = os.path.join(w, "sr", "usr", "lib")
+            os.makedirs(srlib)
+            os.makedirs(os.path.join(w, "tc", "lib", "gcc"))
+            asm_to(os.path.join(ctx.dir, "srm.o"), ".globl psr\n.text\npsr:\n  ret\n")
+            tools.ar(os.path.join(srlib, "libsrimpl.a"), [os.path.join(ctx.dir, "srm.o")], cwd=ctx.dir)
+            entry = "/usr/lib/libsrimpl.a" if sr["entry"] == "abs" else "libsrimpl.a"
+            tools.write(os.path.join(srlib, "libsrq.so"), f"/* GNU ld script */\n{sr['kw']} ( {entry} )\n")
+            calls.append("psr")
+            ldir = {"direct": "sr/usr/lib", "inner-dotdot": "sr/usr/lib/../lib",
+                    "outer-dotdot": "tc/lib/gcc/../../../sr/usr/lib"}[sr["via"]]
+            ldir = os.path.join(w, ldir) if case["path_style"] == "abs" else "./" + ldir
+            srarg = os.path.join(w, "sr") if case["path_style"] == "abs" else "./sr"
+            extra_args += ([f"--sysroot={srarg}"] if sr["sysroot_form"] == "eq" else ["--sysroot", srarg])
+            extra_args += ["-L" + ldir, "-lsrq"]
         if case["vscript"] and shared:
             vn = render(case["vscript"]["name"]) + "_v.ver"
             tools.write(os.path.join(ddir, vn), "VZQ_1 { global: _start; local: zz_*; };\n")
@@ -405,6 +430,8 @@ class C24(Check):
                 return tm[0]
             feats = [n for n in ("rsp", "script", "thin", "vscript", "libdir", "archive")
                      if (case[n]["use"] if n == "rsp" else case[n])]
+            if case.get("sysroot"):
+                feats.append(f"sysroot-{case['sysroot']['via']}-{case['sysroot']['entry']}")
             return f"replay-mismatch:{stage}:{case['path_style']}:{'+'.join(feats) or 'objects-only'}"
 
         # Run 1: with the save directory.
@@ -467,14 +494,17 @@ class C24(Check):
         for n in ("archive", "thin", "script", "vscript", "libdir", "soname", "rpath"):
             if case.get(n):
                 info["classes"].append("uses:" + n)
+        if case.get("sysroot"):
+            info["classes"].append(f"uses:sysroot:{case['sysroot']['via']}:{case['sysroot']['entry']}")
         if in_rsp:
             info["classes"].append("uses:rsp" + ("-nested" if rsp["nested"] else ""))
         info["classes"].append("out_form:" + case["out_form"])
         info["classes"].append("path:" + case["path_style"])
-        info["nontrivial"] = bool(keys or in_rsp or case["script"] or case["thin"])
+        info["nontrivial"] = bool(keys or in_rsp or case["script"] or case["thin"] or case.get("sysroot"))
         info["key"] = ",".join(sorted(keys)) + f"|{case['out_form']}|{case['path_style']}|" + \
             "".join(str(int(bool(x))) for x in (in_rsp, case["archive"], case["thin"], case["script"], case["vscript"],
-                                                case["libdir"], case["soname"], case.get("rpath"), shared))
+                                                case["libdir"], case["soname"], case.get("rpath"), shared)) + \
+            (f"|sr:{case['sysroot']['via']}:{case['sysroot']['entry']}" if case.get("sysroot") else "")
         return info
 
 
